@@ -27,9 +27,9 @@ base=/tmp/seed/base-suite-$(git -C /repo rev-parse --short HEAD).txt
 suite > "$wt.suite"
 if ! diff -q "$base" "$wt.suite" >/dev/null; then echo "CONFIRM $name: suite results differ:"; diff "$base" "$wt.suite" | head -5; rm -f "$wt.suite"; cleanup; exit 1; fi
 rm -f "$wt.suite"
-REPO="$wt" sh "$out/demo$i/run.sh" "$wt" > "$wt.demo.mut" 2>&1; mut=$?
+REPO="$wt" bash "$out/demo$i/run.sh" "$wt" > "$wt.demo.mut" 2>&1; mut=$?
 (cd "$wt" && git checkout -q -- . && git clean -fdq)
-REPO="$wt" sh "$out/demo$i/run.sh" "$wt" > "$wt.demo.clean" 2>&1; clean=$?
+REPO="$wt" bash "$out/demo$i/run.sh" "$wt" > "$wt.demo.clean" 2>&1; clean=$?
 rm -f "$wt.demo.mut" "$wt.demo.clean"
 cleanup
 if [ $mut -eq 0 ] || [ $clean -ne 0 ]; then echo "CONFIRM $name: demo does not discriminate (mutant exit $mut, clean exit $clean)"; exit 1; fi
